@@ -39,6 +39,14 @@ class Partial:
         k.update(kw)
         return self.func(*(self.args + tuple(args)), **k)
 
+class ClassRef:
+    """A class of the repository held as a value (to be instantiated, or to call a classmethod / staticmethod on)."""
+    _sa_fold_ok = True
+    def __init__(self, modname, name):
+        self.modname, self.name = modname, name
+    def __repr__(self):
+        return '<class %s.%s>' % (self.modname, self.name)
+
 class FuncRef:
     """A module-level function of the repository held as a value."""
     _sa_fold_ok = True
@@ -158,7 +166,7 @@ class ClassFolder:
                     self.modglobals.setdefault(self.modname, {})[n.id] = v
                     return v
                 if n.id in self.mod.classes:
-                    return ('cls', n.id)
+                    return ClassRef(self.modname, n.id)
                 if n.id in self.mod.funcs:
                     return ('f', n.id)
                 if n.id in self.mod.imports:
@@ -169,7 +177,7 @@ class ClassFolder:
                             if orig in self.repo.mod(m2).funcs:
                                 return ('fx', m2, orig)
                             if orig in self.repo.mod(m2).classes:
-                                return ('clsx', m2, orig)
+                                return ClassRef(m2, orig)
                         except FactError:
                             pass
                 return None
@@ -212,9 +220,12 @@ class ClassFolder:
                     t = n.args[1]
                     names = [t.id] if isinstance(t, ast.Name) else [x.id for x in getattr(t, 'elts', []) if isinstance(x, ast.Name)]
                     for nm in names:
-                        if nm in self.mod.classes:
-                            if isinstance(obj, Inst) and nm in self.mro(obj._cls):
+                        cname = nm if nm in self.mod.classes else (self.mod.imports[nm][1] if nm in self.mod.imports else None)
+                        if cname is not None and (nm in self.mod.classes or isinstance(obj, Inst)):
+                            if isinstance(obj, Inst) and cname in self.sibling(obj._mod).mro(obj._cls):
                                 return True
+                            if nm in self.mod.classes or isinstance(obj, Inst):
+                                continue
                         elif nm in ('dict', 'list', 'tuple', 'int', 'str', 'bytes', 'bytearray'):
                             if isinstance(obj, {'dict': dict, 'list': list, 'tuple': tuple, 'int': int, 'str': str, 'bytes': bytes, 'bytearray': bytearray}[nm]):
                                 return True
@@ -235,15 +246,9 @@ class ClassFolder:
                     if isinstance(target, (Closure, BoundMethod, Partial, FuncRef)):
                         r = target(*lit._seq(n.args), **lit._kw(n.keywords))
                         return FOLDED_NONE if r is None else r
-                    if isinstance(target, tuple) and target and target[0] == 'cls':
-                        inst = Inst(self.modname, target[1], self)
-                        c, m = self.find_method(target[1], '__init__')
-                        if m is not None:
-                            self.call_method(inst, c, m, lit._seq(n.args), lit._kw(n.keywords))
-                        return inst
-                    if isinstance(target, tuple) and target and target[0] == 'clsx':
-                        other = self.sibling(target[1])
-                        return other.new(target[2], *lit._seq(n.args), **lit._kw(n.keywords))
+                    if isinstance(target, ClassRef):
+                        other = self.sibling(target.modname)
+                        return other.new(target.name, *lit._seq(n.args), **lit._kw(n.keywords))
                     if isinstance(target, tuple) and target and target[0] == 'f':
                         r = self.call_func(self.modname, target[1], lit._seq(n.args), lit._kw(n.keywords))
                         return FOLDED_NONE if r is None else r
@@ -263,14 +268,16 @@ class ClassFolder:
                             return FOLDED_NONE if r is None else r
                     if isinstance(obj, (BoundMethod, Closure)):
                         pass
-                    if isinstance(obj, tuple) and obj and obj[0] == 'cls':
+                    if isinstance(obj, ClassRef):
                         # classmethod / staticmethod call on the class
-                        c, m = self.find_method(obj[1], fn.attr)
+                        other = self.sibling(obj.modname)
+                        c, m = other.find_method(obj.name, fn.attr)
                         if m is not None:
                             args = lit._seq(n.args)
                             if any(isinstance(d, ast.Name) and d.id == 'classmethod' for d in m.decorator_list):
                                 args = [obj] + args
-                            return self._run(m, [a.arg for a in m.args.args], args, {}, c, None)
+                            r = other._run(m, [a.arg for a in m.args.args], args, lit._kw(n.keywords), c, None)
+                            return FOLDED_NONE if r is None else r
                 # a folded callable held in a variable, a table or an attribute
                 try:
                     target = lit.ev(fn)
